@@ -17,7 +17,7 @@ def programs(tier):
         P.append(("swap-in-authorised/" + call, ["u1", "a2"], [call], ["b1"]))
     if tier != "quick":
         for call in ("expr-auto", "tool_call", "tool_loop"):
-            P.append(("two-swaps/" + call, ["a1", "a2"], [call, call], ["u1", "a1"]))
+            P.append(("two-swaps/" + call, ["a1", "a2"], [call, call], ["u1", "b1"]))
             P.append(("both-names/" + call, ["a1", "a2"], [call], ["u2", "u1"]))
     return V, P
 
